@@ -113,7 +113,7 @@ pub fn inputs_of_base(plan: &Plan, b: u64, corpus: &[(String, Vec<u8>)]) -> Vec<
     if plan.mode == Mode::Digest && b < plan.generated_bases {
         // cross-profile comparison: well-formed sprites whose sizes / counts exceed 255 and 65535
         // (arithmetic that only wraps for large but valid values)
-        for k in 0..24u64 {
+        for k in 0..40u64 {
             let mut r = Rng::derive(plan.seed, "digest-big", b * 64 + k);
             let mut cfg = crate::gen::GenCfg::small();
             cfg.max_w = 24;
